@@ -157,9 +157,23 @@ func (c17) Run(u fw.Unit) fw.Result {
 					cur[k] = nil
 				}
 			}
+			// run 0: rows back to back; run 1 (short sequences): 1.5 s of virtual time after every row - the
+			// default configuration has no STATETTL, so idle groups must keep their state
+			failed0 := false
+			for run := 0; run < 2; run++ {
+				if run == 1 && (L > 3 || failed0) {
+					break // a failure that shows without pauses is reported once, under its own signature
+				}
+				paused := ""
+				if run == 1 {
+					paused = "|paused-between-rows"
+				}
 			r := detExec(sql, detOpts{Eager: true, Horizon: 100 * vtime.Millisecond}, func(e *Env) {
 				for _, row := range rows {
-					e.Emit(row)
+					e.Emit(copyVal(row).(map[string]any))
+					if run == 1 {
+						e.Sleep(1500 * vtime.Millisecond)
+					}
 				}
 			})
 			a.r.Evaluations++
@@ -168,7 +182,7 @@ func (c17) Run(u fw.Unit) fw.Result {
 			cs := map[string]any{"sql": sql, "rows": rows}
 			if r.ExecErr != "" || r.Status != sched.StatusOK {
 				a.fail("C17|exec", r.ExecErr+" "+r.Status.String()+" "+firstLine(r.Panic), cs, nil, nil)
-				return
+				continue
 			}
 			var got []string
 			for _, b := range r.Batches {
@@ -196,10 +210,12 @@ func (c17) Run(u fw.Unit) fw.Result {
 				} else if len(got) > len(want) {
 					kind = "spurious-fire"
 				}
-				a.fail(fmt.Sprintf("C17|%s|pred=%s", kind, p.SQL), fmt.Sprintf("%s: fired %v, reference %v", sql, got, want), cs, want, got)
+				failed0 = true
+				a.fail(fmt.Sprintf("C17|%s|pred=%s%s", kind, p.SQL, paused), fmt.Sprintf("%s: fired %v, reference %v", sql, got, want), cs, want, got)
+			}
 			}
 			if idx == 77 {
-				a.sample(map[string]any{"sql": sql, "rows": rows, "fires": got})
+				a.sample(map[string]any{"sql": sql, "rows": rows, "fires": want})
 			}
 		})
 	}
@@ -209,7 +225,7 @@ func (c17) Run(u fw.Unit) fw.Result {
 func (c17) Describe(tier string) fw.Description {
 	return fw.Description{
 		Level: "model_checking",
-		Rule: "13 TRIGGER WHEN predicates (one comparison over count(*), count(v), sum, avg, min, max; AND / OR of two; mixed AND-OR precedence; selected and unselected aggregates) x all row sequences of length 1..L over 2 groups x v in {1,2,3,NULL} on the real engine (eager deterministic schedule); oracle: per group, fire exactly at the rows where the predicate holds on the aggregates since the last fire, result = count/sum/avg over exactly those rows plus the group column, then restart; non-trivial = at least one expected fire",
+		Rule: "13 TRIGGER WHEN predicates (one comparison over count(*), count(v), sum, avg, min, max; AND / OR of two; mixed AND-OR precedence; selected and unselected aggregates) x all row sequences of length 1..L over 2 groups x v in {1,2,3,NULL} on the real engine (eager deterministic schedule; sequences of length <= 3 also with 1.5 s of virtual time after every row); oracle: per group, fire exactly at the rows where the predicate holds on the aggregates since the last fire, result = count/sum/avg over exactly those rows plus the group column, then restart; non-trivial = at least one expected fire",
 		Bounds:      map[string]any{"max_len": map[string]int{"quick": 4, "thorough": 6}, "groups": 2, "values": []string{"1", "2", "3", "NULL"}},
 		Assumptions: []string{"a predicate over an aggregate that is NULL (no usable input) is not true"},
 	}
